@@ -114,6 +114,17 @@ func TestVerifC11Semaphore(t *testing.T) {
 					break
 				}
 				blockedAcq++
+				// from the history alone: permits = initial + completed releases - completed acquires
+				relDone := 0
+				for _, e := range events {
+					if e.Addr == o.Addr && !e.Acquire && !e.Start {
+						relDone++
+					}
+				}
+				if permits := init[o.Addr] + relDone - acq[o.Addr]; permits > 0 {
+					key, msg = "C11:sema:lost-wakeup", fmt.Sprintf("no thread can run, thread %d is blocked in semaAcquire(address %d) although %d permit(s) are outstanding (initial %d + %d completed releases - %d completed acquires)", th.ID, o.Addr, permits, init[o.Addr], relDone, acq[o.Addr])
+					break
+				}
 				if sems[o.Addr] > 0 {
 					key, msg = "C11:sema:lost-wakeup", fmt.Sprintf("no thread can run, thread %d is blocked in semaAcquire(address %d) although the count is %d", th.ID, o.Addr, sems[o.Addr])
 					break
